@@ -84,6 +84,15 @@ MUTANTS = {
     'write_args_swapped': (P + 'trace_handlers/bsd.py', "    return BscWrite(events, args[0], args[1], args[2], result, no_cancel)", "    return BscWrite(events, args[0], args[2], args[1], result, no_cancel)", ['C09']),
     'kill_result_from_start': (P + 'trace_handlers/bsd.py', "    return BscKill(events, events[0].values[0], events[0].values[1], serialize_result(events[-1]))", "    return BscKill(events, events[0].values[0], events[0].values[1], serialize_result(events[0]))", ['C10']),
     'mach_arg_shift': (P + 'trace_handlers/mach.py', "    return MachPortAllocate(events, args[0], MachPortRight(args[1]), args[2])", "    return MachPortAllocate(events, args[0], MachPortRight(args[1]), args[3])", ['C09']),
+    'enum_value_changed': (P + 'trace_handlers/bsd.py', "    O_NOFOLLOW = 0x0100", "    O_NOFOLLOW = 0x0080", ['C11']),
+    'flag_eq_not_and': (P + 'trace_handlers/mach.py', "return [s for s in ThreadState if s.value & flags]", "return [s for s in ThreadState if s.value == flags]", ['C11']),
+    'ioctl_len_mask': (P + 'trace_handlers/bsd.py', "length = (self.request >> 16) & 0x1fff", "length = (self.request >> 16) & 0xfff", ['C11']),
+    'access_any': (P + 'trace_handlers/bsd.py', "    amode = [flag for flag in BscAccessFlags if flag.value & flags]", "    amode = [flag for flag in BscAccessFlags if flag.value & flags or flags & 8]", ['C11']),
+    'lock_un_value': (P + 'trace_handlers/bsd.py', "    LOCK_UN = 8", "    LOCK_UN = 16", ['C11']),
+    'twin_diverges': (P + 'trace_handlers/bsd.py', "    'BSC_read_nocancel': partial(handle_read, no_cancel=True),", "    'BSC_read_nocancel': partial(handle_write, no_cancel=True),", ['C17']),
+    'unregister_base': (P + 'trace_handlers/bsd.py', "    'BSC_wait4': handle_wait4,\n", "", ['C17']),
+    'name_not_in_table': (P + 'trace_handlers/mach.py', "    'MACH_WAIT': handle_mach_wait,", "    'MACH_WAITING': handle_mach_wait,", ['C17']),
+    'family_clash': (P + 'trace_handlers/turnstile.py', "handlers = {", "handlers = {\n    'MACH_WAIT': None,", ['C17']),
 }
 
 
